@@ -50,7 +50,7 @@ def validate(c, files, parallel=6, timeout=900):
             shutil.copy(os.path.join(SPECS, "node", fn), work)
         shutil.copy(f["path"], os.path.join(work, "trace.ndjson"))
         out = os.path.join(work, "tlc.out")
-        cmd = ["java", "-XX:+UseParallelGC", "-Xss512m", "-Xmx3g", "-cp", JAVA_CP, "tlc2.TLC", "-config", "ReactorNetTrace.cfg",
+        cmd = ["java", "-XX:+UseParallelGC", "-Xss512m", "-Xmx3g", "-Djava.io.tmpdir=" + os.path.dirname(work), "-cp", JAVA_CP, "tlc2.TLC", "-config", "ReactorNetTrace.cfg",
                "-metadir", os.path.join(work, "meta"), "-workers", "1", "ReactorNetTrace.tla"]
         t0 = time.time()
         to = False
